@@ -23,6 +23,11 @@ func TestC06(t *testing.T) {
 					r := vlib.Rand(fmt.Sprintf("C06-%s-%s-%s", driver, ep.Method, kind), pt)
 					lw, err := authWorld(driver, pt)
 					if err != nil {
+						if strings.Contains(err.Error(), "failed to verify") {
+							ev.Case("setup/"+driver, true)
+							ev.Violate("valid-request-refused:session-setup", map[string]interface{}{"err": err.Error()})
+							continue
+						}
 						t.Fatal(err)
 					}
 					w := lw.w
